@@ -238,9 +238,14 @@ class CuboidalDescription(ShapeDescriptionBase):
     
     def __init__(self):
         super().__init__()
-        self.eqRadiusFactorMin = self.eqRadiusFactor(1)
+        # Values of the formulas at an aspect ratio of 1. The public functions return the
+        # ...Min constants for ar <= 1, so they cannot be used to compute them: the inner
+        # formulas are evaluated instead (the kinetic factor is 0/0 at exactly 1 and is
+        # evaluated just above it)
+        one = np.ones(1)
+        self.eqRadiusFactorMin = self._eqRadius(one)[0]
         self.kineticFactorMin = self.kineticFactor(1.0001)
-        self.thermoFactorMin = self.thermoFactor(1)
+        self.thermoFactorMin = self._thermoFactor(one)[0]
 
     def _eqRadius(self, ar):
         '''
